@@ -30,6 +30,9 @@ def main():
         rc, out = sh("/venv/bin/python _demo.py", cwd=wt, timeout=900)
         res["demo_clean"] = "PASS" if rc == 0 else f"FAIL(rc={rc})"
         rc, out = sh(f"git apply {os.path.join(d, 'patch.diff')}", cwd=wt)
+        if rc != 0:   # /repo has moved on since the patch was written (later fix: commits): merge
+            rc, out = sh(f"git apply --3way {os.path.join(d, 'patch.diff')}", cwd=wt)
+            res["applied_with_3way"] = True
         assert rc == 0, "patch does not apply: " + out
         rc, out = sh("/venv/bin/python _demo.py", cwd=wt, timeout=900)
         res["demo_patched"] = "FAIL" if rc != 0 else "PASS(!)"
